@@ -194,6 +194,8 @@ func cmdMockLife(args []string) {
 		if lc.Cfgable {
 			if lc.Cfg == "err" {
 				cfg = cfgBad
+			} else if lc.Cfg == "panic" {
+				cfg = lint.Configuration{} // the zero value: applying it to a configurable lint panics
 			} else if i%2 == 1 {
 				cfg = cfgOK
 			}
